@@ -1692,7 +1692,7 @@ class WassersteinVectorizer(BaseEstimator, TransformerMixin):
 
                     lot_dimension = reference_size * vectors.shape[1]
                     block_size = max(1, memory_size // (lot_dimension * 8))
-                    u, s, v = scipy.sparse.linalg.svds(X, k=1, v0=np.ones(min(X.shape)))
+                    u, s, v = randomized_svd(X, n_components=1, random_state=random_state)
                     reference_center = v @ vectors
                     if metric == cosine:
                         reference_center /= np.sqrt(np.sum(reference_center**2))
@@ -2395,7 +2395,7 @@ class SinkhornVectorizer(BaseEstimator, TransformerMixin):
 
                 lot_dimension = reference_size * vectors.shape[1]
                 block_size = max(1, memory_size // (lot_dimension * 8))
-                u, s, v = scipy.sparse.linalg.svds(X, k=1, v0=np.ones(min(X.shape)))
+                u, s, v = randomized_svd(X, n_components=1, random_state=random_state)
                 reference_center = v @ vectors
                 if metric == cosine:
                     reference_center /= np.sqrt(np.sum(reference_center**2))
